@@ -279,6 +279,12 @@ impl<'a> StagesBuilder<'a> {
         let new_reads = new_reads.into_iter();
         let new_writes = new_writes.into_iter();
 
+        // Everything in front of the barrier has finished before this system
+        // starts, so dependencies on those systems are already satisfied.
+        for stage in 0..self.barrier {
+            self.remove_ids(stage, new_dep);
+        }
+
         (self.barrier..self.stages.len())
             .map(|stage| {
                 let conflict = Self::find_conflict(
